@@ -63,6 +63,8 @@ type pedRun struct {
 	newNodes []dkg.Node
 	oldT     uint32
 	newT     uint32
+	gang     *pnode // the honest dealer all false complaints are directed at (nil: each picks its own)
+	gangMode bool   // every Byzantine holder issues a false complaint against the same honest dealer
 	fast     bool
 	reshare  bool
 	nonce    []byte
@@ -90,7 +92,7 @@ func (r *pedRun) fail(w, format string, args ...any) {
 }
 
 var pedDealFaults = []string{"absent", "bad-share", "bad-share", "bad-cipher", "wrong-holder-index", "wrong-coeff-count", "wrong-nonce", "duplicate-bundle", "conflicting-bundles", "honest-deal"}
-var pedRespFaults = []string{"honest", "honest", "false-complaint", "success-in-regular-mode", "unknown-dealer", "wrong-nonce", "absent", "duplicate-bundle"}
+var pedRespFaults = []string{"honest", "honest", "false-complaint", "false-complaint", "success-in-regular-mode", "unknown-dealer", "wrong-nonce", "absent", "duplicate-bundle"}
 var pedJustFaults = []string{"honest", "honest", "honest", "none", "wrong-share", "unknown-holder", "wrong-nonce", "duplicate-bundle"}
 
 func (r *pedRun) cfg(n *pnode) *dkg.Config {
@@ -279,6 +281,9 @@ func (r *pedRun) run() {
 			menu = append(append([]string(nil), menu...), "success-in-regular-mode", "success-in-regular-mode")
 		}
 		fault := rapid.SampledFrom(menu).Draw(t, "respfault."+n.name)
+		if r.gangMode {
+			fault = "false-complaint" // this run: every Byzantine holder complains about the same honest dealer
+		}
 		r.log("%s (new idx %d) response fault: %s", n.name, n.nidx, fault)
 		if rb == nil {
 			rb = &dkg.ResponseBundle{ShareIndex: uint32(n.nidx), SessionID: r.nonce}
@@ -298,6 +303,14 @@ func (r *pedRun) run() {
 			}
 			if len(hon) > 0 {
 				h := hon[rapid.IntRange(0, len(hon)-1).Draw(t, "fc."+n.name)]
+				// the Byzantine holders may gang up on ONE honest dealer (its complaint count then lies
+				// between the thresholds of a resharing that changes the threshold)
+				if r.gang == nil && (r.gangMode || rapid.Bool().Draw(t, "gangup")) {
+					r.gang = h
+				}
+				if r.gang != nil {
+					h = r.gang
+				}
 				rb.Responses = append(rb.Responses, dkg.Response{DealerIndex: uint32(h.oidx), Status: dkg.Complaint})
 				r.stats["false-complaint"] = true
 			}
@@ -614,6 +627,13 @@ func c11PedersenReshare(t *rapid.T, ev *evProp, maxN int) {
 	r0 := newPedRun(t, ev)
 	n := rapid.IntRange(3, maxN).Draw(t, "n")
 	r0.newT = uint32(rapid.IntRange(n/2+1, n).Draw(t, "t"))
+	// directed scenario (1 case in 6): the threshold GROWS (old 3-of... t=2, new group larger) and as
+	// many Byzantine new members as the new threshold tolerates gang up on one honest old dealer with
+	// false complaints - a count that reaches the old threshold but not the new one
+	growGang := maxN >= 5 && rapid.IntRange(0, 5).Draw(t, "growgang") == 0
+	if growGang {
+		n, r0.newT = 3, 2
+	}
 	r0.nodes = r0.mkNodes(n, "O")
 	for i, nd := range r0.nodes {
 		nd.oidx, nd.nidx = i, i
@@ -654,6 +674,9 @@ func c11PedersenReshare(t *rapid.T, ev *evProp, maxN int) {
 	case "smaller":
 		keep = rapid.IntRange(2, n-1).Draw(t, "keep")
 	}
+	if growGang {
+		shape, keep, extra = "larger", n, min(2+rapid.IntRange(0, 1).Draw(t, "ggextra"), maxN-n)
+	}
 	newN := keep + extra
 	if newN < 2 {
 		extra += 2 - newN
@@ -684,16 +707,41 @@ func c11PedersenReshare(t *rapid.T, ev *evProp, maxN int) {
 	}
 	sort.Slice(r.newNodes, func(i, j int) bool { return r.newNodes[i].Index < r.newNodes[j].Index })
 	r.newT = uint32(rapid.IntRange(newN/2+1, newN).Draw(t, "newt"))
-	// Byzantine: at most n - oldT old dealers and at most newN - newT new holders in total
-	maxByz := min(n-int(r.oldT), newN-int(r.newT))
+	if growGang {
+		r.newT = uint32(newN/2 + 1)
+	}
+	// Byzantine: at most n - oldT of the old dealers and at most newN - newT of the new holders (the
+	// two bounds are separate: a new-only member does not count against the old group)
+	maxOld, maxNew := n-int(r.oldT), newN-int(r.newT)
 	nbyz := 0
-	if maxByz > 0 && rapid.IntRange(0, 3).Draw(t, "anybyz") != 0 {
-		nbyz = rapid.IntRange(1, maxByz).Draw(t, "nbyz")
+	if growGang {
+		for _, nd := range r.nodes {
+			if nd.oidx < 0 && nbyz < maxNew { // fresh members only
+				nd.byz = "byzantine"
+				nbyz++
+			}
+		}
+	} else if maxOld+maxNew > 0 && rapid.IntRange(0, 3).Draw(t, "anybyz") != 0 {
+		want := rapid.IntRange(1, maxOld+maxNew).Draw(t, "nbyz")
+		byzOld, byzNew := 0, 0
+		for _, b := range rapid.Permutation(seqInts(len(r.nodes))).Draw(t, "byzperm") {
+			nd := r.nodes[b]
+			isOld, isNew := nd.oidx >= 0, nd.nidx >= 0
+			if nbyz >= want || (isOld && byzOld >= maxOld) || (isNew && byzNew >= maxNew) {
+				continue
+			}
+			nd.byz = "byzantine"
+			nbyz++
+			if isOld {
+				byzOld++
+			}
+			if isNew {
+				byzNew++
+			}
+		}
 	}
-	for _, b := range rapid.Permutation(seqInts(len(r.nodes))).Draw(t, "byzperm")[:nbyz] {
-		r.nodes[b].byz = "byzantine"
-	}
-	r.log("resharing shape=%s old n=%d t=%d -> new n=%d t=%d fastsync=%v byzantine=%d", shape, n, r.oldT, newN, r.newT, r.fast, nbyz)
+	r.gangMode = growGang || (nbyz >= 2 && rapid.IntRange(0, 2).Draw(t, "gangmode") == 0)
+	r.log("resharing shape=%s old n=%d t=%d -> new n=%d t=%d fastsync=%v byzantine=%d gang=%v", shape, n, r.oldT, newN, r.newT, r.fast, nbyz, r.gangMode)
 	for _, nd := range r.nodes {
 		gen, err := dkg.NewDistKeyHandler(r.cfg(nd))
 		if err != nil {
